@@ -392,3 +392,13 @@ def finish(res, level_text=''):
     for l in lines:
         print(l, flush=True)
     return 1 if lines else 0
+
+
+def check_orbit_nosep(res, pid):
+    """the table hypothesis `orbit_nosep` of the Coq theorems, over all code points: case folding never relates a separator"""
+    fold = open(os.path.join(TABLES, 'fold.tbl')).read().strip()
+    res.evaluations += 1
+    for item in [x for x in fold.split(';') if x]:
+        c, orbit = item.split(':')
+        if c == '47' or '47' in orbit.split(','):
+            res.tie_fail('%s table hypothesis: the case folding table relates a separator' % pid, {'entry': item})
